@@ -54,10 +54,11 @@ func (op Jgt0f) Op_instruction_verilog_state_machine(conf *Config, arch *Arch, r
 	}
 	for i := 0; i < reg_num; i++ {
 		result += "							" + strings.ToUpper(Get_register_name(i)) + " : begin\n"
-		result += "								if(_" + strings.ToLower(Get_register_name(i)) + "[31] == 1'b0)\n"
+		result += "								if(_" + strings.ToLower(Get_register_name(i)) + "[31] == 1'b0) begin\n"
 		result += NextInstruction(conf, arch, 6, "current_instruction["+strconv.Itoa(rom_word-opbits-1-int(arch.R))+":"+strconv.Itoa(rom_word-opbits-int(arch.O)-int(arch.R))+"]")
-		result += "								else\n"
+		result += "								end else begin\n"
 		result += NextInstruction(conf, arch, 7, "_pc + 1'b1")
+		result += "								end\n"
 		result += "								$display(\"JGT0F " + strings.ToUpper(Get_register_name(i)) + " \",_" + strings.ToLower(Get_register_name(i)) + ");\n"
 		result += "							end\n"
 	}
